@@ -65,6 +65,7 @@ def exact_event(c: dict) -> dict:
         with quiet(), warnings.catch_warnings():
             warnings.simplefilter("ignore")
             kw = ranks_kw(a["ranks"])
+            kw0 = repr(kw)
             T = ttb.hosvd(ttb.tensor(X), c["tn"] / c["td"], verbosity=0, dimorder=np.array(c["order"], dtype=int),
                           sequential=bool(c["seq"]), **kw)
         kept, unit = [], True
@@ -78,7 +79,8 @@ def exact_event(c: dict) -> dict:
                 cols.append(i)
             kept.append(cols)
         return {"op": "hosvd_exact", "args": a, "ret": {"st": "ok", "kept": kept, "unit_vectors": unit,
-                                                        "core_ok": core_dev(X, T) <= 1e-8}}
+                                                        "core_ok": core_dev(X, T) <= 1e-8,
+                                                        "request_untouched": repr(kw) == kw0}}
     except Exception as e:
         return {"op": "hosvd_exact", "args": a, "ret": {"st": "raised", "msg": f"{type(e).__name__}: {e}"[:150]}}
 
@@ -103,13 +105,15 @@ def general_event(c: dict) -> dict:
         with quiet(), warnings.catch_warnings():
             warnings.simplefilter("ignore")
             kw = ranks_kw(c["ranks"])
+            kw0 = repr(kw)
             T = ttb.hosvd(ttb.tensor(stored), c["tol"], verbosity=c["verbosity"], dimorder=np.array(c["order"], dtype=int),
                           sequential=bool(c["seq"]), **kw)
         rel = np.linalg.norm(Xd - T.full().data) / np.linalg.norm(Xd)
         ranks = [int(u.shape[1]) for u in T.factor_matrices]
         return {"op": "hosvd", "args": a, "ret": {"st": "ok", "orthonormal": orthonormal(T.factor_matrices),
                 "core_relation_dev": e9(core_dev(Xd, T)), "relerr9": e9(rel), "tol9": e9(c["tol"]), "ranks": ranks,
-                "ranks_out_of_range": any(r < 1 or r > s for r, s in zip(ranks, shape))}}
+                "ranks_out_of_range": any(r < 1 or r > s for r, s in zip(ranks, shape)),
+                "request_untouched": repr(kw) == kw0}}
     except Exception as e:
         return {"op": "hosvd", "args": a, "ret": {"st": "raised", "msg": f"{type(e).__name__}: {e}"[:150]}}
 
